@@ -59,13 +59,13 @@ fn process(kind: &str, bytes: &Arc<Vec<u8>>, armored: bool, opener: &Opener, sch
     match kind {
         "msg" => {
             let (input, l) = mk();
-            let spec = ReadSpec { armor: armored, opener: opener.clone(), consumer, verifiers: verifiers.to_vec(), max: 1 << 22, streaming_v1: false };
+            let spec = ReadSpec { armor: armored, opener: opener.clone(), consumer, verifiers: verifiers.to_vec(), max: 1 << 22, streaming_v1: false, v1_limit: None };
             let _ = workload::read_message(input, &spec);
             note(&l);
             // streaming SEIPDv1 mode releases unauthenticated data to the inner parsers
             if let Opener::SessionKey(_) = opener {
                 let (input, l) = mk();
-                let spec = ReadSpec { armor: armored, opener: opener.clone(), consumer, verifiers: verifiers.to_vec(), max: 1 << 22, streaming_v1: true };
+                let spec = ReadSpec { armor: armored, opener: opener.clone(), consumer, verifiers: verifiers.to_vec(), max: 1 << 22, streaming_v1: true, v1_limit: None };
                 let _ = workload::read_message(input, &spec);
                 note(&l);
             }
